@@ -13,6 +13,7 @@
 // through schedule points untouched, and with no controller installed the hook pointer is null.
 #pragma once
 #include <atomic>
+#include <chrono>
 #include <condition_variable>
 #include <cstdint>
 #include <functional>
@@ -29,7 +30,7 @@ struct AbortCase {};  // thrown out of a schedule point at case end to unwind a 
 class Controller {
 public:
   enum State { RUNNING, PARKED, DONE };
-  enum StepResult { STEPPED, BLOCKED, FINISHED };
+  enum StepResult { STEPPED, BLOCKED, FINISHED, HUNG };
 
   struct Slot {
     State                        st{RUNNING};
@@ -42,6 +43,11 @@ public:
 
   // called on the stepping thread right after it passed a schedule point (before it touches memory)
   std::function<void(int)> after_grant;
+  // optional harness-supplied enabledness test for plain schedule points (e.g. "the mutex this point is
+  // about to take is free"); returning false makes the thread not enabled at that point
+  std::function<bool(int, const char*)> extra_enabled;
+  // a granted thread that does not reach its next schedule point within this time is reported as hung
+  int hang_timeout_ms{8000};
 
   Controller() {
     current() = this;
@@ -95,7 +101,7 @@ public:
     s.grant = true;
     s.st    = RUNNING;
     m_cv.notify_all();
-    m_cv.wait(l, [&] { return s.st != RUNNING; });
+    if (!m_cv.wait_for(l, std::chrono::milliseconds(hang_timeout_ms), [&] { return s.st != RUNNING; })) return HUNG;
     return STEPPED;
   }
 
@@ -133,6 +139,7 @@ private:
   bool enabled_locked(int t) {
     auto& s = m_slots[t];
     if (s.st != PARKED) return false;
+    if (extra_enabled && !extra_enabled(t, s.label)) return false;
     if (s.waddr != nullptr) {
       // label prefix selects what the point waits for: "m:" a std::mutex that must be free (some
       // other thread holds it across its own schedule points), "b:" an atomic<bool>::wait(old),
